@@ -1259,6 +1259,8 @@ class QARBF(StationaryKernelMixin, Kernel):
         k = np.sum(sk, axis=-1)
         print(self.scale)
         if eval_gradient:
+            if self.hyperparameter_scale.fixed:
+                return k, np.empty((X.shape[0], Y.shape[0], 0))
             return k, sk
         return k
 
